@@ -166,6 +166,12 @@ func mergeVal(c *Term, a, b Value) (Value, bool) {
 	if ok1 && ok2 && ta.W == tb.W {
 		return Ite(c, ta, tb), true
 	}
+	if fa, ok := a.(FloatV); ok {
+		if fb, ok := b.(FloatV); ok && fa.T != nil && fb.T != nil {
+			return FloatV{T: Ite(c, fa.T, fb.T)}, true
+		}
+		return nil, false
+	}
 	ga, ok1 := a.(Agg)
 	gb, ok2 := b.(Agg)
 	if ok1 && ok2 && len(ga) == len(gb) {
